@@ -171,6 +171,193 @@ def epoch0_variant(rng, ds, step):
     return ('origin %s' % what, dict(shift=shift), shift)
 
 
+# ------------------------------------------------------------- logging every few seconds, at present-day and far epochs
+#
+# A comparison of epochs with a RELATIVE tolerance (or through single precision, or a 32-bit integer) is exact for
+# half-hourly data and wrong once the time step is below tolerance x epoch: 1 s steps today (1.7e9 s), 2-3 s steps in
+# the 2030s-2090s, epochs beyond 2^31.  The same record moved next to 1970 is then processed differently.
+
+FINE_STEPS = [1, 2, 1, 5, 3, 2]
+FAR_EPOCHS = [1600000000, 1750000000, 2000000000, 2 ** 31, 3200000000, 4000000000]
+
+
+def fine_items(seed, n):
+    items = []
+    for k in range(n):
+        rng = C.rng_for(seed, PROP, 'fine', k)
+        step = FINE_STEPS[k % len(FINE_STEPS)]
+        plan = CC.make_plan(rng, step=step, noise=(k % 2 == 0))
+        e = FAR_EPOCHS[(seed + k) % len(FAR_EPOCHS)]
+        plan['t0'] = (e - (rng.randrange(10, 40) if e == 2 ** 31 else 0) * step) // step * step   # (across 2^31)
+        items.append(dict(kind='plan', plan=plan, fine=True))
+    return items
+
+
+def fine_variants(rng, ds, step):
+    """The same record within the first hour of 1970, and at another of the far epochs (at / across / beyond 2^31)."""
+    first = ds.wl[0][0]
+    out = [('epoch near-1970', dict(shift=-first + rng.randrange(0, 3600) // step * step), None)]
+    e = rng.choice([x for x in FAR_EPOCHS if abs(x - first) > 10 ** 8])
+    back = rng.randrange(10, 40) * step if e == 2 ** 31 else 0
+    out.append(('epoch far-%d' % e, dict(shift=(e - back - first) // step * step), None))
+    return [(n, kw, kw['shift']) for n, kw, _ in out]
+
+
+# ------------------------------------------------------------- environment stage
+#
+# The whole workflow (load, classify, set-zeta-grid, rise, recession) in ONE child process per variant of
+# envcheck.workflow_env_variants(): TZ of the process (the record is dated across a daylight-saving switch of that
+# very zone), python -O, -vvv, another current directory, PYTHONHASHSEED=random.  Every table and view must equal
+# those of the default in-process run of the same files: the time origin of the data is the file's, not the
+# process's.
+
+WORKFLOW_CHILD = ('import spowtd.user_interface as ui, sys, json\n'
+                  'for argv in json.loads(sys.argv[1]):\n'
+                  '    sys.stderr.write("COMMAND %s\\n" % argv[0])\n'
+                  '    sys.stderr.flush()\n'
+                  '    rc = ui.main(argv)\n'
+                  '    if rc:\n'
+                  '        sys.exit(rc)\n')
+
+
+def zone_switches(name, y0=2001, y1=2036):
+    """Instants (UTC) at which the zone's UTC offset changes, by stdlib zoneinfo: daily scan, then bisection."""
+    import datetime as dt
+    import zoneinfo
+    z = zoneinfo.ZoneInfo(name)
+    off = lambda e: dt.datetime.fromtimestamp(e, tz=z).utcoffset()          # noqa: E731
+    lo = int(dt.datetime(y0, 1, 1, tzinfo=dt.timezone.utc).timestamp())
+    hi = int(dt.datetime(y1, 1, 1, tzinfo=dt.timezone.utc).timestamp())
+    out = []
+    a, oa = lo, off(lo)
+    for b in range(lo + 86400, hi, 86400):
+        ob = off(b)
+        if ob != oa:
+            x, y = a, b
+            while y - x > 1:
+                m = (x + y) // 2
+                if off(m) == oa:
+                    x = m
+                else:
+                    y = m
+            out.append(y)
+        a, oa = b, ob
+    return out
+
+
+def run_workflow_child(argvs, variant):
+    """All commands in one child interpreter of the tree under test.  Returns (status, failed command, last
+    stderr line)."""
+    import json
+    import os
+    import subprocess
+    import tempfile
+    from harness import envcheck as E
+    argvs = [[str(a) for a in argv] for argv in argvs]
+    if variant.get('verbose'):
+        argvs = [[a[0], '-vvv'] + a[1:] for a in argvs]
+    env = {k: v for k, v in os.environ.items() if k in ('PATH', 'HOME', 'LANG', 'LC_ALL', 'TMPDIR', 'LD_LIBRARY_PATH')}
+    env.update(PYTHONPATH=C.REPO, MPLBACKEND='Agg', PYTHONDONTWRITEBYTECODE='1')
+    env.update(variant.get('env') or {})
+    cwd = tempfile.mkdtemp(prefix='c07_cwd_', dir=C.WORK) if variant.get('cwd') == 'tmp' else None
+    try:
+        p = subprocess.run([E.PYTHON] + (['-O'] if variant.get('opt') else []) + ['-c', WORKFLOW_CHILD, json.dumps(argvs)],
+                           env=env, cwd=cwd, stdout=subprocess.PIPE, stderr=subprocess.PIPE, text=True, timeout=600)
+    finally:
+        if cwd:
+            try:
+                os.rmdir(cwd)
+            except OSError:
+                pass
+    lines = [l for l in p.stderr.splitlines() if l.strip()]
+    cmds = [l.split()[1] for l in lines if l.startswith('COMMAND ')]
+    if p.returncode == 0:
+        return 'ok', None, ''
+    return 'failed', (cmds[-1] if cmds else '?'), (lines[-1] if lines else 'exit status %s' % p.returncode)
+
+
+def env_items(seed, n):
+    """Planted datasets dated across a switch of the offset of one of the PROCESS zones of the variants (the
+    declared zone of the files is UTC or a fixed-offset zone: the data themselves know nothing of that switch)."""
+    from harness import envcheck as E
+    pz = [v['env']['TZ'] for v in E.workflow_env_variants() if 'TZ' in (v.get('env') or {})]
+    dst = [z for z in pz if zone_switches(z, 2010, 2014)]
+    items = []
+    for k in range(n):
+        rng = C.rng_for(seed, PROP, 'env', k)
+        plan = CC.make_plan(rng, noise=(k % 2 == 0))
+        zone = dst[k % len(dst)]
+        T = rng.choice(zone_switches(zone))
+        ds, _, _ = CC.plan_to_dataset(plan)
+        nsteps = len(ds.rain)
+        plan['t0'] = (T - rng.randrange(2, nsteps - 2) * plan['step']) // plan['step'] * plan['step']
+        items.append(dict(kind='plan', plan=plan, env=dict(across_switch_of=zone, declared=rng.choice(sorted(ZONES)))))
+    return items
+
+
+def check_env(items, out, variants_of):
+    import concurrent.futures as cf
+    import os
+    from harness import envcheck as E
+    for item in items:
+        plan, declared = item['plan'], item['env']['declared']
+        ds, thr_s, _ = CC.plan_to_dataset(plan, shift=ZONES[declared], tz=declared)   # the same instants, written in `declared`
+        db0, st0, exc0 = run_pipeline(ds, thr_s, plan['thr_j'], plan['grid_step'], 'env', True)
+        out.evaluations += 1
+        out.count('ENV:dataset-across-switch-of:' + item['env']['across_switch_of'])
+        out.count('ENV:declared-zone:' + declared)
+        base = D.dump(db0, views=True) if os.path.exists(db0) else {}
+        d = os.path.dirname(db0)
+        paths = {n: os.path.join(d, n + '.txt') for n in ('precipitation', 'evapotranspiration', 'water_level')}
+
+        def child(v):
+            db = os.path.join(d, 'child_%s.sqlite3' % v['name'])
+            if os.path.exists(db):
+                os.remove(db)
+            argvs = [['load', db, '-p', paths['precipitation'], '-e', paths['evapotranspiration'],
+                      '-z', paths['water_level'], '--timezone', declared],
+                     ['classify', db, '-s', thr_s, '-j', plan['thr_j']], ['set-zeta-grid', db, '-d', plan['grid_step']],
+                     ['rise', db], ['recession', db]]
+            st = run_workflow_child(argvs, v)
+            return st, (D.dump(db, views=True) if os.path.exists(db) else {})
+        variants = variants_of(item)
+        with cf.ThreadPoolExecutor(max_workers=8) as ex:
+            results = list(ex.map(child, variants))
+        for v, ((st, cmd, err), tables) in zip(variants, results):
+            out.evaluations += 1
+            out.count('ENV:' + v['name'])
+            vcase = dict(level='ENV', item=item, variant=v['name'])
+            how = ', '.join(['%s=%s' % kv for kv in sorted((v.get('env') or {}).items())] +
+                            [t for t, on in (('python -O', v.get('opt')), ('-vvv', v.get('verbose')),
+                                             ('another current directory', v.get('cwd'))) if on])
+            if (st0 == 'ok') != (st == 'ok') or (st0 != 'ok' and st0 != cmd):
+                out.violation('oracle', 'the same files are processed differently in a process under %s: default run '
+                              '%s %r, child run %s %s %s' % (how, st0, exc0, st, cmd or '', err[:300]), case=vcase)
+                continue
+            diffs = E.diff_dumps(base, tables)
+            if diffs:
+                out.violation('oracle', 'tables / views of the same files differ when the process runs under %s '
+                              '(record dated across a switch of %s, declared zone %s): %s'
+                              % (how, item['env']['across_switch_of'], declared, '; '.join(diffs[:3])), case=vcase)
+            elif st == 'ok' and len(base.get('zeta_interval', [])) >= 2:
+                out.nontriv(('env', v['name'], str(item)[:300]))
+
+
+def env_stage(seed, tier, out):
+    from harness import envcheck as E
+    variants = [v for v in E.workflow_env_variants() if v['name'] != 'default']
+    tz_only = [v for v in variants if 'TZ' in (v.get('env') or {})]
+    items = env_items(seed, 2 if tier == 'quick' else 8)
+    # quick: every variant on the first dataset; on the second the process zone whose switch it is dated across
+    # and one other
+    def variants_of(it):
+        if tier != 'quick' or it is items[0]:
+            return variants
+        own = [v for v in tz_only if v['env']['TZ'] == it['env']['across_switch_of']]
+        return own + [v for v in tz_only if v not in own][-1:]
+    check_env(items, out, variants_of)
+
+
 def check_pairs(items, out, label, only_variant=None):
     cases, meta = [], []
     for item in items:
@@ -200,12 +387,18 @@ def check_pairs(items, out, label, only_variant=None):
         if only_variant is not None:
             todo = [(only_variant['name'], only_variant['kw'], only_variant['d'])]
         else:
-            todo = variants(rng, step) + [epoch0_variant(rng0, ds0, step)]
+            if item.get('fine'):
+                todo = fine_variants(C.rng_for(out.evaluations, PROP, 'fine_variant'), ds0, step)
+            else:
+                todo = variants(rng, step) + [epoch0_variant(rng0, ds0, step)]
         for name, kw, d in todo:
             dsb = mk(**kw)
             dbb, stb, excb = run_pipeline(dsb, thr_s, thr_j, grid, 'b', curves)
             out.evaluations += 1
             out.count('variant:' + name.split()[0])
+            if name.startswith('epoch'):
+                out.count('variant:' + name)
+                out.count('fine:step=%ds base-epoch~%.1e moved-to~%.1e' % (step, ds0.wl[0][0], dsb.wl[0][0]))
             if name.startswith('origin'):
                 out.count('variant:' + ' '.join(name.split()[:2]))
                 off = ZONES[kw.get('tz', 'UTC')]              # epochs as load will read them
@@ -245,12 +438,20 @@ def run(ctx, out):
         items.append(dict(kind='record', rec=G.gen_record(rng, classes[k % len(classes)])))
     for k in range(nplan):
         items.append(dict(kind='plan', plan=CC.make_plan(C.rng_for(seed, PROP, 'plan', k), noise=(k % 2 == 0))))
+    items += fine_items(seed, 3 if tier == 'quick' else 18)
     check_pairs(items, out, 'cl')
+    env_stage(seed, tier, out)
     out.rule = ('Each dataset (classification records with increments exactly at threshold x step; planted datasets run up '
                 'to rise/recession) is processed at its own origin and at shifted origins (multiples of the step incl. '
                 'years, fixed-offset zone changes incl. +05:45 / +05:30, and origins at / across / before UNIX time 0); '
                 'all tables and views compared after un-shifting, floats within 1e-13 relative. '
-                'Non-trivial: >= 2 classified intervals and identical tables; distinct by (dataset, variant).')
+                'Non-trivial: >= 2 classified intervals and identical tables; distinct by (dataset, variant). '
+                'Also planted datasets logged every 1 / 2 / 3 / 5 s at epochs 1.6e9 .. 4e9 (at, across and beyond 2^31), '
+                'compared with the same record within the first hour of 1970 and at another far epoch (fine:* counts). '
+                'ENVIRONMENT STAGE: the whole workflow on planted datasets dated across a daylight-saving switch of '
+                'the PROCESS zone, in one child process per variant (TZ=Asia/Tokyo / America/St_Johns / Europe/Berlin, '
+                'python -O, -vvv, another current directory, PYTHONHASHSEED=random): every table and view must equal '
+                'the default in-process run exactly (ENV:* counts).')
     out.samples = [dict(kind='record', rec=items[0]['rec'])]
     out.assumptions += ['tables and views compared within 1e-13 relative (measured: bit-identical on the unchanged tree; '
                         'cells that are not are counted as float-cells-not-bit-identical)']
@@ -258,5 +459,9 @@ def run(ctx, out):
 
 def replay(case, out):
     C.import_spowtd()
+    if case.get('level') == 'ENV':
+        from harness import envcheck as E
+        check_env([case['item']], out, lambda it: [E.variant_by_name(case['variant'])])
+        return
     v = case.get('variant')
     check_pairs([case['item']], out, 'replay', only_variant=v if isinstance(v, dict) else None)
